@@ -221,11 +221,13 @@ def insLength (k : InsKind) (v : Val) (path : List Bytes) : Option Nat :=
   match k with
   | .static => some (lenOf v)                       -- StaticInspector ignores the path; 0 for non-sequences
   | .strings => match v, path with
-    | .strs xs, [] => if xs.isEmpty then none else some xs.length
+    -- (the result buffer is zeroed before the call — repair —, so "left untouched" reads 0;
+    --  `none` is the error of `strconv.Atoi` on a non-numeric index)
+    | .strs xs, [] => some xs.length
     | .strs xs, [p] => match parseNatDec p with
-      | some i => (xs[i]?).map List.length
+      | some i => some ((xs[i]?).map List.length |>.getD 0)
       | none => none
-    | _, _ => none
+    | _, _ => some 0
   | .obj => some (match strictPathObj v path with
     | some leaf => lenOf leaf
     | none => 0)
